@@ -263,6 +263,11 @@ class SimDisk:
         plan = Plan(self.next_plan)
         if not plan.persist:
             self.next_plan = None   # transient: only the first open of the operation sees it
+        if plan.kind == "open_error":
+            # the device refuses the open itself (permissions, quota, bad medium)
+            self.fired("open_error")
+            raise OSError(errno.EACCES if "w" in mode or "a" in mode or "+" in mode else errno.EIO,
+                          "simulated failure of open()", path)
         self.opened += 1
         if self.opened_in_op > 0:
             self.stats["reach_io/reopen_within_one_operation"] += 1
@@ -453,10 +458,10 @@ class DiskWorld:
             exc = e
             _release_frames(e)
         fired = set(self.disk.fired_now)
-        hard = {f for f in fired if f in ("write_enospc", "write_eio")}
+        hard = {f for f in fired if f in ("write_enospc", "write_eio", "open_error")}
         self.abstract.append(zlib.crc32(f"save|{plan.get('kind', 'none')}|{sorted(fired)}|{exc is None}".encode()))
         self.faults_fired += len(fired)
-        if plan.get("kind", "none") in ("enospc", "eio") and not hard:
+        if plan.get("kind", "none") in ("enospc", "eio", "open_error") and not hard:
             self.stats[f"fault_not_fired/write_{plan['kind']}"] += 1
         if exc is not None:
             if not hard:
@@ -507,7 +512,7 @@ class DiskWorld:
             exc = e
             _release_frames(e)
         fired = set(self.disk.fired_now)
-        hard = "read_eio" in fired
+        hard = "read_eio" in fired or "open_error" in fired
         ack = self.acked.get(name)
         self.abstract.append(zlib.crc32(f"load|{plan.get('kind', 'none')}|{sorted(fired)}|{exc is None}|{ack is not None}".encode()))
         self.faults_fired += len(fired)
@@ -640,6 +645,8 @@ def gen_plan(rng, direction, size_hint):
     if r < 0.68:
         return {"kind": "eintr", "at": rng.randrange(0, max(1, size_hint)), "buf": buf, "also_short": rng.random() < 0.5,
                 "pattern": rng.randrange(1, 1 << 20)}
+    if rng.random() < 0.08:
+        return {"kind": "open_error", "buf": buf, "persist": rng.random() < 0.6}
     at = rng.randrange(0, max(1, size_hint)) if rng.random() < 0.85 else rng.randrange(0, size_hint * 2 + 50)
     kind = "eio" if direction == "r" else rng.choice(["enospc", "eio"])
     return {"kind": kind, "at": at, "buf": buf, "also_short": rng.random() < 0.3, "pattern": rng.randrange(1, 1 << 20),
@@ -1271,7 +1278,7 @@ class LoadWorld:
             exc = e
             _release_frames(e)
         fired = set(self.disk.fired_now)
-        hard = "read_eio" in fired
+        hard = "read_eio" in fired or "open_error" in fired
         self.faults_fired += len(fired)
         self.stats[f"reach_route/{route}"] += 1
         self.abstract.append(zlib.crc32(f"load|{route}|{plan.get('kind', 'none')}|{sorted(fired)}|{exc is None}|{f['tpb']}|{f['writer']}".encode()))
